@@ -43,6 +43,10 @@ func (p *ResetProcessor) UnmarshalYAML(value *yaml.Node) error {
 	if err != nil {
 		return err
 	}
+	if resolved == nil {
+		// the document itself is tagged `!reset`: nothing is left of it
+		return nil
+	}
 	return resolved.Decode(p.target)
 }
 
